@@ -169,15 +169,15 @@ Definition site_justification : list jentry := [
   J "_compressed/compressed.py" "GCXS._reduce_return" 0 KGcxs ARaw FDefault FDefault
     (Unjustified "1-d result of a grouped reduction: indices are the group heads of sorted rows (cf. GroupHeads for COO); GCXS reduction not modelled here");
   J "_compressed/compressed.py" "GCXS.change_compressed_axes" 0 KGcxs AMaybeRaw FDefault FDefault
-    (Unjustified "arrays computed by _transpose/_from_coo conversion (model of C05; judged at run time)");
+    (Unjustified "arrays computed by _transpose/_from_coo conversion (model of C05; judged at run time). The new indptr ends at nnz, so its dtype must hold max(new compressed extents, nnz): the bound of _transpose is extracted into Gen/S_convert.v and Props/C05.v:change_axes_fits proves indices, row numbers and indptr fit it; here the narrow-index join sequences of the campaign (nnz crossing 127/255) judge indptr at run time");
   J "_compressed/compressed.py" "GCXS.from_coo" 0 KGcxs AMaybeRaw FDefault FDefault
     (Unjustified "arrays computed by _from_coo conversion (model of C05; judged at run time)");
   J "_compressed/compressed.py" "GCXS.from_scipy_sparse" 0 KGcxs ARaw FDefault FDefault
     (Unjustified "the SciPy matrix is first canonicalised by _canonical_scipy (scipy's sum_duplicates() unless has_canonical_format): sorted, duplicate-free rows are established by the external library (believed, cf. from_scipy_wf_when_rows_sorted); judged at run time");
   J "_compressed/compressed.py" "GCXS.reshape" 0 KGcxs AMaybeRaw FDefault FDefault
-    (Unjustified "arrays computed by _resize/_from_coo conversion (model of C08; judged at run time)");
+    (Unjustified "arrays computed by _resize/_from_coo conversion (model of C08; judged at run time). The new indptr ends at nnz, so its dtype must hold max(new compressed extents, nnz): the bound of _transpose is extracted into Gen/S_convert.v and Props/C05.v:change_axes_fits proves indices, row numbers and indptr fit it; here the narrow-index join sequences of the campaign (nnz crossing 127/255) judge indptr at run time");
   J "_compressed/compressed.py" "GCXS.transpose" 0 KGcxs AMaybeRaw FDefault FDefault
-    (Unjustified "arrays computed by _transpose conversion (model of C08; judged at run time)");
+    (Unjustified "arrays computed by _transpose conversion (model of C08; judged at run time). The new indptr ends at nnz, so its dtype must hold max(new compressed extents, nnz): the bound of _transpose is extracted into Gen/S_convert.v and Props/C05.v:change_axes_fits proves indices, row numbers and indptr fit it; here the narrow-index join sequences of the campaign (nnz crossing 127/255) judge indptr at run time");
   J "_compressed/compressed.py" "_Compressed2d.__init__" 0 KSuper AMaybeRaw FDefault FDefault
     (Unjustified "forwards its argument to GCXS.__init__ unchanged; the promise is the caller's");
   (* ---- _compressed/convert.py, indexing.py *)
